@@ -140,6 +140,7 @@ def project(trace, qdir, tables=None, dbto=b"postmaster@test.example", pfx=b""):
     last_bounce_open = None
     pidrole = {}
     framer = repframe.Framer()
+    pipebuf = {0: bytearray(), 1: bytearray()}       # written to a report channel, not yet read by the daemon
     logbuf = {}
 
     def ev(op, e, **kw):
@@ -167,12 +168,12 @@ def project(trace, qdir, tables=None, dbto=b"postmaster@test.example", pfx=b""):
                 ev("delcmd", e, c=e["chan"], d=e["delnum"], n=T.n(n), a=T.a(bytes.fromhex(e["rcpt"])), s=T.a(bytes.fromhex(e["sender"])))
             elif op == "report":
                 data = bytes.fromhex(e["hex"])
-                # one abstract report per complete frame of the channel's byte stream (lib/repframe.py); bytes that do not
-                # complete a frame yet produce no event
-                for fr in framer.feed(e["chan"], data):
-                    ev("report", e, c=e["chan"], d=fr[0], k=repframe.letter(fr), extra=min(len(fr), 1 << 20))
+                # the bytes take effect when the daemon READS them (2048 at a time, with its other work in between - it may start
+                # deliveries and reuse delivery numbers between two reads of one long write): they wait here until then
+                pipebuf[e["chan"]].extend(data)
             elif op == "crash":
                 framer.reset()
+                pipebuf[0].clear(); pipebuf[1].clear()
                 ev("crash", e, lossy=e["lossy"])
             elif op == "lost":
                 ev("lost", e, n=T.n(e["n"]), c=e["chan"], pos=e["pos"])
@@ -207,6 +208,7 @@ def project(trace, qdir, tables=None, dbto=b"postmaster@test.example", pfx=b""):
                 ev("end", e, extra=e["left"])
             elif op == "stopped":
                 framer.reset()
+                pipebuf[0].clear(); pipebuf[1].clear()
                 ev("stopped", e)
             elif op == "noexit":
                 ev("noexit", e)
@@ -222,6 +224,13 @@ def project(trace, qdir, tables=None, dbto=b"postmaster@test.example", pfx=b""):
                 inode_of[(d, n)] = e["ino"]
             if d == "bounce" and is_send and not e.get("creat") and e.get("acc") == 0:
                 last_bounce_open = n
+        elif c == "read" and is_send and not e.get("reg") and e.get("fd") in (2, 4) and e.get("res", 0) > 0:
+            # the daemon takes bytes from a report channel: one abstract report per frame they complete (lib/repframe.py)
+            ch_ = 0 if e["fd"] == 2 else 1
+            take = bytes(pipebuf[ch_][: e["res"]])
+            del pipebuf[ch_][: e["res"]]
+            for fr in framer.feed(ch_, take):
+                ev("report", e, c=ch_, d=fr[0], k=repframe.letter(fr), extra=min(len(fr), 1 << 20))
         elif c == "read" and is_send and e.get("reg") and e.get("res") == 0:
             # end of file of a recipient list: the daemon's pass over it is over
             d, n = qpath(e.get("obj") or "", qdir)
